@@ -32,7 +32,9 @@ TRUSTED = ["harness/src/c11.rs reads the stored data by parsing the derived Debu
            "tools/gen_arith.py (mini-Rust -> Gallina translator, notes/GEN.md): the retain closures, the insertion positions, remove_row / "
            "remove_column / insert_row / insert_column of src/matrices/mod.rs and Slice::accepts / Slice2D::accepts of slices.rs are "
            "re-translated on every run and proved equal to Model/Matrix.v (C11_generated_arith_matches_model); Vec::retain / Vec::insert "
-           "are `select` / `insert_each` there"]
+           "are `select` / `insert_each` there; wave 3 (C11_generated_frames_match_model): retain_mut as a whole method (counting loops as folds, asserts, "
+           "emptiness test = no flag kept), from_flat_row_major's validation, the frames of insert_row_with / insert_column_with (an iterator / Vec of "
+           "opaque values is represented by its length: take = min, collect = identity, truncate = min)"]
 
 
 def pre_proof(cov):
